@@ -128,8 +128,14 @@ func DecodeColor1(x byte) Color {
 var dc1Table = [5]byte{0x00, 0x40, 0x80, 0xc0, 0xff}
 
 func Is1(c color.RGBA) bool {
+	if c.A != 0xff {
+		// The only non-opaque 1 byte colors are 127, 126 and 125.
+		return c == color.RGBA{0x00, 0x00, 0x00, 0x00} ||
+			c == color.RGBA{0x80, 0x80, 0x80, 0x80} ||
+			c == color.RGBA{0xc0, 0xc0, 0xc0, 0xc0}
+	}
 	is1 := func(u uint8) bool { return u&0x3f == 0 || u == 0xff }
-	return is1(c.R) && is1(c.G) && is1(c.B) && is1(c.A)
+	return is1(c.R) && is1(c.G) && is1(c.B)
 }
 
 func Is2(c color.RGBA) bool {
